@@ -14,9 +14,10 @@ sorted by status (definitions: Solve/CseCheck2.lean):
 | `wfForest`, `minPosForest` | facts about the output of stage 2 (input of `cse`), evaluated on every real input |
 | a copied axis is not called `cse.<k>` (`freshOK`) | **false** for the real code: defect D19 — stays a hypothesis |
 | a part replaced at root level has one dimension (`rootDimsOK`) | **false** for the real code: defect D20 — stays a hypothesis |
-| same `cse.<k>` ⇒ same shape; different `cse.<k>` ⇒ disjoint axes; a copied axis is not inside a replaced part (`overlapOK`) | believed true, **not proved** (needs injectivity of `__str__` on well-formed trees) — stays a hypothesis, evaluated on every real input |
+| a copied axis is not inside a replaced part (`copiedOK`) | **false** for the real code: defect D21 (overlapping slice candidates, found here) — stays a hypothesis |
+| same `cse.<k>` ⇒ same shape; different `cse.<k>` ⇒ disjoint axes (`sharedOK`) | first half: not known to fail on inputs with one `min_value` per name, **not proved** (needs injectivity of `__str__` on well-formed trees); second half: **false** for overlapping candidates (again D21, see Solve/CseCheck2.lean) — stays a hypothesis, evaluated on every real input |
 
-`cseTrees_preserves_sols_reduced_partial` is `cseTrees_preserves_sols_partial` with exactly the last four rows as
+`cseTrees_preserves_sols_reduced_partial` is `cseTrees_preserves_sols_partial` with exactly the last five rows as
 hypotheses.
 -/
 namespace Einx.Solve.CseT
@@ -51,18 +52,18 @@ theorem cseCheck_of_reduced (opts : Opts) (rs out : List (Option VExpr)) (hrun :
   cseCheck_of_reduced_aux opts rs out hrun h
 
 /-- **CSE preserves the solution set** — `cseTrees_preserves_sols_partial` with the hypotheses reduced to: the facts
-about the input (`inputOK`), the two conditions that are false for the real code (`freshOK`: D19, `rootDimsOK`: D20)
-and the unproved overlap conditions (`overlapOK`). -/
+about the input (`inputOK`), the three conditions that are false for the real code (`freshOK`: D19, `rootDimsOK`: D20,
+`copiedOK`: D21) and the unproved conditions on pairs of replaced parts (`sharedOK`). -/
 theorem cseTrees_preserves_sols_reduced_partial (opts : Opts) (rs out : List (Option VExpr))
     (hrun : cseTrees opts rs = .ok out) (hin : inputOK rs = true)
     (hfresh : freshOK (cseEvents opts rs) = true) (hroot : rootDimsOK (cseEvents opts rs) = true)
-    (hover : overlapOK (cseEvents opts rs) = true) :
+    (hcop : copiedOK (cseEvents opts rs) = true) (hsh : sharedOK (cseEvents opts rs) = true) :
     (∀ σ, Sat (forestSys rs) σ → Sat (forestSys out) (extend σ (cseEvents opts rs))) ∧
     (∀ σ', Sat (forestSys out) σ' →
       ∃ σ, Sat (forestSys rs) σ ∧ (∀ x, x ∉ innerNames (cseEvents opts rs) → σ x = σ' x) ∧
         ∀ k e len r, Ev.used k e len r ∈ cseEvents opts rs → valueOf e = none → evalV σ e = σ' (cseName k)) :=
   cseTrees_preserves_sols_partial opts rs out hrun
-    (cseCheck_of_reduced opts rs out hrun (by simp [cseCheckReduced, hin, hfresh, hroot, hover]))
+    (cseCheck_of_reduced opts rs out hrun (by simp [cseCheckReduced, hin, hfresh, hroot, hcop, hsh]))
 
 /-- CSE does not change whether the constraints are solvable (reduced hypotheses). -/
 theorem cseTrees_solvable_iff_reduced_partial (opts : Opts) (rs out : List (Option VExpr))
@@ -97,7 +98,7 @@ def exD19 : List (Option VExpr) :=
 
 /-- D19: exactly `freshOK` fails. -/
 example : inputOK exD19 = true ∧ freshOK (cseEvents {} exD19) = false ∧ rootDimsOK (cseEvents {} exD19) = true ∧
-    overlapOK (cseEvents {} exD19) = true := by decide
+    copiedOK (cseEvents {} exD19) = true ∧ sharedOK (cseEvents {} exD19) = true := by decide
 
 /-- … and the conclusion of the theorem is false for it: before CSE the system has the solution `a b = 6`,
 `cse.0 = 2`, `cse.1 = 3`; after CSE (`(cse.0) cse.0 cse.1` against `6 2 3`) it has none.  So `freshOK` cannot be
@@ -123,6 +124,32 @@ def exD20 : List (Option VExpr) :=
 /-- D20: exactly `rootDimsOK` fails. -/
 example : inputOK exD20 = true ∧ freshOK (cseEvents { cseInBrackets := true } exD20) = true ∧
     rootDimsOK (cseEvents { cseInBrackets := true } exD20) = false ∧
-    overlapOK (cseEvents { cseInBrackets := true } exD20) = true := by decide
+    copiedOK (cseEvents { cseInBrackets := true } exD20) = true ∧
+    sharedOK (cseEvents { cseInBrackets := true } exD20) = true := by decide
+
+/-- The stage-2 expressions of `einx.solve_shapes("(a 1 d), (1 d) c", zeros((6,)), zeros((3,2)))` as `cse` receives them
+(D21). -/
+def exD21 : List (Option VExpr) :=
+  [some (.flat (.list [.axis "a" none 1, .axis "unnamed.0" (some 1) 1, .axis "d" none 1])),
+   some (.list [.flat (.list [.axis "unnamed.1" (some 1) 1, .axis "d" none 1]), .axis "c" none 1]),
+   some (.list []),
+   some (.axis "unnamed.2" (some 6) 1),
+   some (.list [.axis "unnamed.3" (some 3) 1, .axis "unnamed.4" (some 2) 1]),
+   none]
+
+/-- D21: exactly `copiedOK` fails: the slice candidates `a 1` and `1 d` overlap in the node `1`; in `(a 1 d)` the walk
+replaces `a 1` and copies `d`, in `(1 d)` it replaces `1 d` by `cse.1` — the link between `d` and `cse.1` is lost. -/
+example : inputOK exD21 = true ∧ freshOK (cseEvents {} exD21) = true ∧ rootDimsOK (cseEvents {} exD21) = true ∧
+    copiedOK (cseEvents {} exD21) = false ∧ sharedOK (cseEvents {} exD21) = true := by decide
+
+/-- … the model's output for it (the real `cse` returns the same: harness stream (D)): before CSE `a d = 6`, `d = 3`
+determine every axis; after CSE `cse.0 d = 6`, `cse.1 = 3` do not. -/
+example : cseTrees {} exD21 = .ok
+    [some (.flat (.list [.axis "cse.0" none 1, .axis "d" none 1])),
+     some (.list [.flat (.axis "cse.1" none 1), .axis "c" none 1]),
+     some (.list []),
+     some (.axis "unnamed.2" (some 6) 1),
+     some (.list [.axis "unnamed.3" (some 3) 1, .axis "unnamed.4" (some 2) 1]),
+     none] := by rfl
 
 end Einx.Solve.CseT
